@@ -1365,21 +1365,44 @@ func (e *termEngine) expandRaw(t *Term, depth int) *Term {
 			m[strconv.Itoa(i)] = a
 		}
 		selfCall := func(x *Term) bool { return x.Op == "call" && x.S == call.S }
-		if rt.Op == "alt" {
-			// recursive alternatives (e.g. pointer arm re-dispatching to the
-			// value arm) are covered by the non-recursive ones
-			var keep []*Term
-			for _, a := range rt.Args {
-				if !a.contains(selfCall) {
-					keep = append(keep, a)
+		// recursive alternatives (e.g. pointer arm re-dispatching to the
+		// value arm) are covered by the non-recursive ones
+		var dropSelf func(t *Term) *Term
+		dropSelf = func(t *Term) *Term {
+			switch t.Op {
+			case "alt":
+				var keep []*Term
+				for _, a := range t.Args {
+					if !a.contains(selfCall) {
+						keep = append(keep, a)
+					}
+				}
+				if len(keep) == 1 {
+					return keep[0]
+				} else if len(keep) > 1 {
+					return &Term{Op: "alt", Args: keep}
+				}
+			case "gate":
+				a, b := t.Args[1], t.Args[2]
+				ra, rb := a.contains(selfCall), b.contains(selfCall)
+				pure := func(x *Term) bool {
+					if x.Op == "res" && len(x.Args) == 1 {
+						x = x.Args[0]
+					}
+					return selfCall(x)
+				}
+				switch {
+				case ra && pure(a):
+					return dropSelf(b)
+				case rb && pure(b):
+					return dropSelf(a)
+				case ra || rb:
+					return &Term{Op: "gate", Args: []*Term{t.Args[0], dropSelf(a), dropSelf(b)}}
 				}
 			}
-			if len(keep) == 1 {
-				rt = keep[0]
-			} else if len(keep) > 1 {
-				rt = &Term{Op: "alt", Args: keep}
-			}
+			return t
 		}
+		rt = dropSelf(rt)
 		r := rt.subst(m)
 		if r.contains(selfCall) {
 			return &Term{Op: "rec", S: call.S}
@@ -1432,11 +1455,78 @@ func (e *termEngine) successResult(fn *ssa.Function, idx int) *Term {
 	if len(keys) == 1 {
 		return uniq[keys[0]]
 	}
+	if g := e.gatedResult(fn, idx); g != nil {
+		return g
+	}
 	args := make([]*Term, len(keys))
 	for i, k := range keys {
 		args[i] = uniq[k]
 	}
 	return &Term{Op: "alt", Args: args}
+}
+
+// gatedResult: the success result of a loop-free function as the tree of its
+// branch conditions: gate(cond, value on the true side, value on the false
+// side), nested; a side with no success exit disappears (with its
+// condition). This is the term an inline if / else chain produces.
+func (e *termEngine) gatedResult(fn *ssa.Function, idx int) *Term {
+	fr := e.P.factsOf(fn)
+	if fr.busy || len(findLoops(fn)) > 0 || fn.Recover != nil {
+		return nil
+	}
+	byRet := map[*ssa.Return]*exitInfo{}
+	for _, x := range fr.exits {
+		if x.pred != nil {
+			return nil
+		}
+		byRet[x.ret] = x
+	}
+	memo := map[*ssa.BasicBlock]*Term{}
+	none := &Term{Op: "none"}
+	bad := false
+	var tree func(b *ssa.BasicBlock, depth int) *Term
+	tree = func(b *ssa.BasicBlock, depth int) *Term {
+		if t, ok := memo[b]; ok {
+			return t
+		}
+		if depth > 200 || len(b.Instrs) == 0 {
+			bad = true
+			return none
+		}
+		var t *Term
+		switch last := b.Instrs[len(b.Instrs)-1].(type) {
+		case *ssa.Return:
+			x := byRet[last]
+			if x == nil || x.kind == exitFailure || idx >= len(x.results) {
+				t = none
+			} else {
+				t = x.results[idx]
+			}
+		case *ssa.If:
+			a, c := tree(b.Succs[0], depth+1), tree(b.Succs[1], depth+1)
+			switch {
+			case a == none:
+				t = c
+			case c == none:
+				t = a
+			case a.eq(c):
+				t = a
+			default:
+				t = normGate(e.of(last.Cond), a, c)
+			}
+		case *ssa.Jump:
+			t = tree(b.Succs[0], depth+1)
+		default:
+			t = none // panic etc.
+		}
+		memo[b] = t
+		return t
+	}
+	t := tree(fn.Blocks[0], 0)
+	if bad || t == none {
+		return nil
+	}
+	return t
 }
 
 // isDelegatedErr: the error operand is the (extracted) result of a call, i.e.
